@@ -313,6 +313,12 @@ def invalidate(draw, p, r, op):
     kinds = ["unknown-tag", "unknown-member"]
     if t["dims"] and t["type"] != "DWORD":
         kinds += ["index-range", "count-range"]
+    if t["dims"] and t["type"] == "DWORD":
+        kinds += ["negative-index"]
+    if t["type"] in INT_BITS:
+        kinds += ["bit-range"]
+    if p.is_struct(t["type"]):
+        kinds += ["bit-of-struct"]
     if op == "write":
         kinds += ["bad-value"]
         if isinstance(r.get("value"), list) and r.get("count") and r["count"] > 1 and t["type"] != "DWORD":
@@ -333,6 +339,28 @@ def invalidate(draw, p, r, op):
         r["count"] = None
         if op == "write":
             r["value"] = 1
+    elif kind == "negative-index":
+        # BOOL arrays are addressed by bit index: a negative one is out of range like any other
+        n = draw(st.sampled_from([1, 2, 31, 32, 33]))
+        r["idx"], r["path"], r["bit"] = [-n], [], None
+        r["count"] = draw(st.sampled_from([None, 4, 32, 40]))
+        if op == "write":
+            r["value"] = [True] * r["count"] if r["count"] else True
+    elif kind == "bit-range":
+        # the bit index of tag.N is an index too: beyond the integer's width there is no such bit
+        width = INT_BITS[t["type"]]
+        r["idx"] = [0] * len(t["dims"]) if t["dims"] else None
+        r["path"], r["count"] = [], None
+        r["bit"] = draw(st.sampled_from([width, width + 1, 64, 65, 100, 4096]))
+        if op == "write":
+            r["value"] = draw(st.booleans())
+    elif kind == "bit-of-struct":
+        # a structure has no member called "5"
+        r["idx"] = [0] * len(t["dims"]) if t["dims"] else None
+        r["path"], r["count"] = [], None
+        r["bit"] = draw(st.integers(0, 40))
+        if op == "write":
+            r["value"] = draw(st.booleans())
     elif kind == "index-range":
         idx = [0] * len(t["dims"])
         k = draw(st.integers(0, len(idx) - 1))
